@@ -4,6 +4,7 @@ import (
 	"encoding/json"
 	"fmt"
 	"math/rand"
+	"os"
 	"strings"
 
 	"verif/fw"
@@ -25,7 +26,11 @@ type c18Case struct {
 	Multi    bool        `json:"multi,omitempty"` // AcceptMultiline set: RET on a line ending with a backslash inserts a newline
 	EmptyRec bool        `json:"empty_rec,omitempty"`
 	Pre      []sess.Step `json:"pre,omitempty"`
+	Fed      bool        `json:"fed,omitempty"` // K holds keys whose command feeds keys back to the reader
 }
+
+// c18FedKeys: K may hold keys whose command feeds keys back to the reader.
+var c18FedKeys = os.Getenv("VERIF_C18_FED") != "0"
 
 var c18Printable = []string{"a", "foo", " ", "x y", "\"", "'", "\\", "\\e", "\\C-a", "$(", "1", "-", "Z", "tab", "#", "é", "→ 日本", "ł€", "wörld"}
 var c18EmacsKeys = []string{"\x01", "\x05", "\x02", "\x06", "\x04", "\x0b", "\x19", "\x14", "\x17", "\x1bb", "\x1bf", "\x1bd", "\x1bu", "\x1b[D", "\x1b[C", "\x1b[H", "\x1b[F", "\x1b[3~", "\x1b2", "\x1b3", "\x7f"}
@@ -68,8 +73,18 @@ func c18Gen(r *rand.Rand, tier string, idx int) any {
 	}
 	n := 1 + r.Intn(12)
 	add := func(w, tag string) { c.K = append(c.K, sess.Step{W: w, Tag: tag}) }
+	if c.Style == "emacs" && c18FedKeys && r.Intn(8) == 0 {
+		// keys whose command feeds keys back to the reader: sequences bound to inputrc macros
+		// (one of them nested), do-lowercase-version (M-B runs M-b)
+		c.Fed = true
+		c.Inputrc += "\"\\C-xq\": \"hello \"\n\"\\C-xw\": \"\\C-a[\\C-e]\"\n\"\\C-xj\": \"<\\C-xq>\"\n"
+	}
 	if c.Style == "emacs" {
 		for i := 0; i < n; i++ {
+			if c.Fed && r.Intn(3) == 0 {
+				add(pick(r, []string{"\x18q", "\x18w", "\x18j", "\x1bB", "\x1bF"}), "feeding-key")
+				continue
+			}
 			switch r.Intn(10) {
 			case 0, 1, 2, 3:
 				add(pick(r, c18Printable), "text")
@@ -272,7 +287,11 @@ func c18Run(env *fw.Env, raw json.RawMessage) fw.Outcome {
 		if earlyB {
 			which = "recorded-then-replayed"
 		}
-		o.Viol("only-one-session-returned-before-the-end-of-its-script|"+c.Style, ctx+fmt.Sprintf("\nthe %s session returned (%q, %q) before the end of its script, the other one went on to its end (buffers: retyped %q, replayed %q)", which, resA.Line+resB.Line, resA.Err+resB.Err, fa, fb))
+		sig := "only-one-session-returned-before-the-end-of-its-script|" + c.Style
+		if c.Fed {
+			sig = "replay-differs-from-retyping|a-key-of-the-recording-feeds-keys|" + c.Style
+		}
+		o.Viol(sig, ctx+fmt.Sprintf("\nthe %s session returned (%q, %q) before the end of its script, the other one went on to its end (buffers: retyped %q, replayed %q)", which, resA.Line+resB.Line, resA.Err+resB.Err, fa, fb))
 		return o.O
 	case !okA || !okB:
 		o.Inc("final buffer not observed")
@@ -316,7 +335,11 @@ func c18Run(env *fw.Env, raw json.RawMessage) fw.Outcome {
 	}
 	o.Cover(c.Style + "|" + strings.Join(ks, "+") + fmt.Sprintf("|len%d", min(len(c.K), 6)) + pre)
 	if fa != fb {
-		o.Viol("replay-differs-from-retyping|"+c.Style+"|"+strings.Join(ks, "+"), ctx+fmt.Sprintf("\nretyped twice -> %q\nrecorded then replayed -> %q", fa, fb))
+		sig := "replay-differs-from-retyping|" + c.Style + "|" + strings.Join(ks, "+")
+		if c.Fed {
+			sig = "replay-differs-from-retyping|a-key-of-the-recording-feeds-keys|" + c.Style
+		}
+		o.Viol(sig, ctx+fmt.Sprintf("\nretyped twice -> %q\nrecorded then replayed -> %q", fa, fb))
 	}
 	o.O.Sample = map[string]any{"ctx": ctx, "retyped": fa, "replayed": fb}
 	return o.O
@@ -337,7 +360,7 @@ func init() {
 		NeedsTerm: true,
 		Rule: "differential pairs of sessions: A = start text, then the key script K typed twice; B = start text, start recording, K, stop recording, replay (Emacs: C-x ( K C-x ) C-x e; Vi: q<r> K q @<r> for 10 registers, K starting and ending in command mode, ESC in its own read). K = 1-12 tokens: printable text incl. non-ASCII characters (Latin-1, above U+00FF, CJK), quotes, backslashes and text that looks like escapes (\\e, \\C-a), control keys, ESC-prefixed keys, CSI arrows/Home/End/Delete, quoted-insert + key, digit arguments, Vi commands with counts and argument keys, operators with text objects and surround characters (di\" da( yi'), named registers; one case in four has AcceptMultiline set and K may contain a Return that is refused (a line ending with a backslash: a newline is inserted and K goes on); one case in six records the macro in one call (accepted with RET) and replays it in the next call of the same Shell (session A types K in both calls); one case in five first makes an empty recording on the same shell and types a few keys; oracle: the final buffer texts of A and B are equal. " +
 			"distinct non-trivial = distinct (style, set of key kinds in K, length class) tuples",
-		Assumptions: []string{"convert-meta off, input-meta and output-meta on (non-ASCII text in K is text)", "K holds no key whose command feeds keys back to the reader (a sequence bound to an inputrc macro, do-lowercase-version, a replay inside the recording): on the pinned tree those are recorded on top of the key that triggered them (DESIGN.md section 11, remarks left alone)"},
+		Assumptions: []string{"convert-meta off, input-meta and output-meta on (non-ASCII text in K is text)", "one Emacs case in eight holds keys whose command feeds keys back to the reader (sequences bound to inputrc macros, one nested; do-lowercase-version): a difference in those cases is classed a-key-of-the-recording-feeds-keys (known finding)"},
 		N: func(tier string) int {
 			if tier == "thorough" {
 				return 40000
